@@ -24,6 +24,7 @@ TEXT_ALPHA = os.environ.get("H_TEXT", "a\xe9€\U0001f600")  # 1-, 2-, 3-, 4-byt
 RAW_ALPHA = tuple(int(x, 16) for x in os.environ.get("H_RAW", "61,e9").split(","))
 NT = int(os.environ.get("H_TLEN", "1"))
 WHICH = int(os.environ.get("H_WHICH", "2"))
+FIXED_KINDS = [int(x) for x in os.environ["H_KINDS"].split(",")] if os.environ.get("H_KINDS") else None  # leaf sequence fixed per condition
 ORD_TEXT = "a\xe9€"
 ORD_RAW = (0x61, 0xE9)
 PATTERNS = ([False] * 8, [True, False, True, False, False, True, False, True], [True] * 8)
@@ -140,12 +141,19 @@ def view(tree, which):
             return ("ok", tree.to_string())
         if which == 3:
             return ("ok", bytes(tree))
+        if which == 5:
+            return ("ok", int(tree))
         return ("ok", str(tree))
     except FandangoConversionError:
         return ("err", "FandangoConversionError")
 
 
 def expected(specs, which):
+    if which == 5:
+        # int view: defined here for trees that consist of bit leaves only (the binary number they spell)
+        if len(specs) == 0 or any(kind != "b" for kind, v in specs):
+            raise IgnoreAttempt("int view only for bit-only trees")
+        return ("ok", int(ref_bits(specs), 2))
     if len(specs) == 0:
         return ("ok", "" if which in (0, 2, 4) else b"")
     if which == 0:
@@ -185,11 +193,16 @@ def views_match(kinds: List[int], text: str, raw: bytes, pat: int, split: int) -
     post: _
     """
     exclude_known("views_match", kinds=kinds, text=text, raw=raw, pat=pat, split=split, which=WHICH)
+    if FIXED_KINDS is not None:
+        if len(kinds) != 0:
+            raise IgnoreAttempt("kinds fixed by H_KINDS")
+        kinds = FIXED_KINDS
     bits8 = PATTERNS[0] if pat == 0 else PATTERNS[1] if pat == 1 else PATTERNS[2]
     specs = leaf_specs(kinds, text, raw, bits8)
     split = pick_split(split, len(specs))
     tree = build(specs, split)
-    return view(tree, WHICH) == expected(specs, WHICH)
+    want = expected(specs, WHICH)  # first: it rejects inputs for which the view is not defined
+    return view(tree, WHICH) == want
 
 
 FIRST = int(os.environ.get("H_FIRST", "2"))
@@ -200,9 +213,10 @@ def order_independent(kinds: List[int], text: str, raw: bytes, nested: bool, lat
     pre: 1 <= len(kinds) <= NI and all(0 <= k <= 3 for k in kinds)
     pre: len(text) == 1 and text in ORD_TEXT
     pre: len(raw) == 1 and raw[0] in ORD_RAW
-    pre: 1 <= len(later) <= NORD - 1 and all(0 <= o <= 2 for o in later)
+    pre: 1 <= len(later) <= NORD - 1 and all(0 <= o <= 3 for o in later)
     post: _
     """
+    # request 3 = int() (only on bit-only trees)
     # the first request is fixed per condition (H_FIRST: 0 bits, 1 bytes, 2 string), the later ones symbolic
     order = [FIRST] + list(later)
     exclude_known("order_independent", kinds=kinds, text=text, raw=raw, nested=nested, order=order)
@@ -214,10 +228,20 @@ def order_independent(kinds: List[int], text: str, raw: bytes, nested: bool, lat
         shared = tree.value()  # one TreeValue object asked repeatedly
     except FandangoConversionError:
         return not ref_interior_aligned(specs)
+    bits_only = all(kind == "b" for kind, v in specs)
     for o in order:
+        if o == 3:
+            if not bits_only:
+                raise IgnoreAttempt("int view only for bit-only trees")
+            o = 5
         fresh = view(build(specs, 1 if nested else -1), o)
         if view(tree, o) != fresh:
             return False
+        if o == 5 and fresh != expected(specs, 5):
+            return False
+        if o == 5:
+            continue  # int() is requested on the tree (the property's subject); a TreeValue that has already been
+            # asked for bytes keeps the flushed bytes by design and has no binary-number view any more
         try:
             got = ("ok", shared.to_bits() if o == 0 else shared.to_bytes() if o == 1 else shared.to_string())
         except FandangoConversionError:
